@@ -51,6 +51,11 @@ extern _rolling_hash2_run_until_04
 extern _rolling_hash2_run_until_base
 
 
+%ifdef ISAL_CRYPTO_VERIF
+; Verification hook (off by default): let a harness read/re-arm the binding
+global _rolling_hash2_run_until_dispatched, _rolling_hash2_run_until_mbinit, _rolling_hash2_run_until_dispatch_init
+%endif
+
 section .data
 ;;; *_mbinit are initial values for *_dispatched; is updated on first call.
 ;;; Therefore, *_dispatch_init is only executed on first call.
